@@ -22,6 +22,7 @@ type genProfile struct {
 	maxN           int
 	multiTarget    bool
 	fOnly          bool
+	nilRounds      bool
 }
 
 func weighted[T any](t *rapid.T, label string, items []T, weights []int) T {
@@ -179,6 +180,9 @@ func genOp(t *rapid.T, cfg simCfg, p genProfile, depth int) Op {
 		op.P = rapid.IntRange(0, n-1).Draw(t, "proposer")
 		op.D = rapid.IntRange(0, 3).Draw(t, "data")
 		op.Nil = rapid.IntRange(0, 5).Draw(t, "nilround") == 0
+		if p.nilRounds {
+			op.Nil = rapid.IntRange(0, 2).Draw(t, "nilround2") == 0
+		}
 		if rapid.IntRange(0, 3).Draw(t, "partial") == 0 {
 			op.S = genMask(t, n, "pcmask")
 			op.PS = genMask(t, n, "pvmask")
